@@ -34,8 +34,8 @@ macro_rules! slice_h {
     };
 }
 
-//@ prop=C12 tier=quick cost=30 fns="codec::h264::is_h264_keyframe,AnnexBNalIter::next,find_start_code" bound="all byte strings of length 0..=7" unwind=10 stubs="assert_invariant(panic-only)"
-slice_h!(c12_h264_is_keyframe, 7, 10, |d| {
+//@ prop=C12 tier=quick cost=30 fns="codec::h264::is_h264_keyframe,AnnexBNalIter::next,find_start_code" bound="all byte strings of length 0..=6" unwind=9 stubs="assert_invariant(panic-only)"
+slice_h!(c12_h264_is_keyframe, 6, 9, |d| {
     let _ = h264::is_h264_keyframe(d);
 });
 
@@ -208,20 +208,7 @@ fixed_h!(c12_h265_extract_len9, 9, 12, |d| {
     core::mem::forget(r);
 });
 
-macro_rules! av1_extract_h {
-    ($name:ident, $n:expr, $unw:expr) => {
-        fixed_h!($name, $n, $unw, |d| {
-            let r = av1::extract_av1_config(d);
-            core::mem::forget(r);
-        });
-    };
-}
-//@ prop=C12 tier=quick cost=120 fns="codec::av1::extract_av1_config,parse_sequence_header,parse_color_config,skip_uvlc,BitReader,ObuIter::next" bound="all byte strings of length 3" unwind=34 stubs="assert_invariant(panic-only)"
-av1_extract_h!(c12_av1_extract_len3, 3, 34);
-//@ prop=C12 tier=thorough cost=900 fns="codec::av1::extract_av1_config,parse_sequence_header,parse_color_config,skip_uvlc,BitReader,ObuIter::next" bound="all byte strings of length 4" unwind=34 stubs="assert_invariant(panic-only)"
-av1_extract_h!(c12_av1_extract_len4, 4, 34);
-//@ prop=C12 tier=thorough cost=600 fns="codec::av1::extract_av1_config,parse_sequence_header,parse_color_config,skip_uvlc,BitReader,ObuIter::next" bound="all byte strings of length 6" unwind=34 stubs="assert_invariant(panic-only)" timeout=3000
-av1_extract_h!(c12_av1_extract_len6, 6, 34);
+// AV1 config extraction is decided by the differential harnesses c07_av1_payload* (registered for C12 too).
 
 // ===========================================================================
 // fragmented muxer: every public method from hook-built states, symbolic scalars
@@ -425,7 +412,7 @@ pub fn c12_w_entry_dims_panic() {
 }
 
 // calendar loop: bounded iterations only for bounded days
-//@ prop=C12 tier=quick cost=200 fns="muxer::mp4::days_to_ymd" bound="all days < 14610 (40 years): no overflow, terminates within 42 iterations" unwind=43 timeout=900
+//@ prop=C12 tier=thorough cost=200 fns="muxer::mp4::days_to_ymd" bound="all days < 14610 (40 years): no overflow, terminates within 42 iterations" unwind=43 timeout=900
 #[kani::proof]
 #[kani::unwind(43)]
 pub fn c12_days_to_ymd_bounded() {
